@@ -16,6 +16,8 @@ def run(ctx, info):
     ctx.ties = {"algos": st.get("algos")}
     # optimizers whose provenance facts changed (objective reached outside _init_agent, raw sites ...) or that left the blind set are searched on every task family
     focus = sorted((set(pinned) - set(now)) | {n for n, s_ in sks.items() if n in pinned and (s_["objective_calls"] or s_["raw_sites"] or not s_["init_agent_ok"])})
+    from .. import hot
+    focus = sorted(set(focus) | (set(hot.changed_sources(info)) & set(pinned)))
     ctx.coverage["focus"] = focus
     pairs = L.c12_jobs(ctx, pinned, focus=focus)
     obs = L.run_pairs(pairs)
